@@ -553,8 +553,8 @@ def gen_cases(tier, rng):
     for S in range(1, SMAX + 1):
         full = disjoint_sets(S, 3)
         small = [s for s in full if len(s) <= 2]
-        if quick and S >= 5:
-            pairs = itertools.chain(itertools.product(small, small) if S == 5 else itertools.product([s for s in small if len(s) <= 1], full))
+        if quick and S == SMAX:
+            pairs = itertools.product(small, small)
         else:
             pairs = itertools.product(full, full)
         for A, B in pairs:
@@ -671,16 +671,34 @@ def run(tier="quick", seed=0):
                     "count_overlap/intersect/global_intersect; entry sets x interval sets for unique_intersect; pairs of sorted sets over "
                     "1..2 contigs for jaccard/forbes; every (start,stop,strand,L) for clip/extend_to_size; then seeded samples on contigs "
                     "of 7..40 with 4..10 intervals. distinct = distinct (operation, input); non-trivial = non-empty input sets")
-    col.bounds = {"contig_size": "1..6 exhaustive (similarity %s, unique_intersect %s, Geometry 2 contigs up to %s), 7..40 sampled" %
-                                 (("1..4", "1..4", "3+2") if quick else ("1..6", "1..6", "3+3 / 4+1")),
-                  "intervals_per_set": "0..3 exhaustive, 4..10 sampled", "merge_distance": "0..S", "strands": "+,-",
-                  "fragment_length": "0..S+2", "clip_coordinates": "-2..S+2", "contigs": "1..3 (sort), 1..2 (others)",
-                  "samples": 150 if quick else 2500}
+    col.bounds = {
+        "intervals": "half-open [a,b), 0 <= a < b <= S; empty intervals (a == b) only for pileup/mask/extend_to_size/clip",
+        "pileup/mask/bedgraph-pileup": "S=1..6, every multiset of 0..3 intervals incl. empty ones (quick: S=6 without empty intervals; "
+                                       "thorough: S<=5 every ORDER of the 0..3 intervals)",
+        "merge": "S=1..6, every start-sorted sequence of 0..3 non-empty intervals (all tie orders) x distance 0..S",
+        "sort": ("rows over (3 contigs,S=2),(2 contigs,S=3),(1 contig,S=3)" if quick else
+                 "rows over (3 contigs,S=3),(2 contigs,S=4),(1 contig,S=6) with 0..3 rows and (3 contigs,S=2) with 0..4 rows") +
+                ", every sequence, x {default key, sort_order, key function, StringEncoding column}; Bed6 rows over 2 contigs S=2, 0..%d rows" % (2 if quick else 3),
+        "count_overlap/intersect": "S=1..6, every ordered pair of internally non-overlapping sorted sets of 0..3 intervals" +
+                                   (" (S=6: 0..2 intervals per set)" if quick else ""),
+        "global_intersect": "2 contigs of sizes %s, every pair of non-empty per-contig non-overlapping sets of 1..%d rows" %
+                            (("(2,2)", 2) if quick else ("(2,2),(3,2),(2,3)", 3)),
+        "unique_intersect": "S=1..%d: entry multisets of 0..2 intervals x interval multisets of 0..3 (0..2 when 2 entries)%s" %
+                            ((4, "") if quick else (5, "; S=6: 0..1 entries x 0..3 intervals")),
+        "jaccard/forbes/Geometry.jaccard": ("1 contig S=1,2 (0..3 intervals per set), S=3 (0..2), S=4 (0..1); 2 contigs (1,1),(2,1),(1,2) (0..2)" if quick else
+                                            "1 contig S=1..3 (0..3 intervals per set), S=4 (0..2), S=5,6 (0..1); 2 contigs (1,1),(2,1),(1,2) (0..3), (2,2),(3,2),(2,3) (0..2)") +
+                                           ", every ordered pair of sorted sets",
+        "clip": "S=1..6, every start <= stop in -2..S+2, scalar and per-row sizes, one call per row and one batch call",
+        "extend_to_size": "S=1..6, every 0 <= start <= stop <= S x strand +,- x fragment length 0..S+2, scalar and per-row sizes, batch call"
+                          " and one call per row" + (" (S<=4)" if quick else ""),
+        "Geometry (2 contigs)": "sizes %s: get_pileup/get_mask on every multiset of 0..3 rows%s, clip and extend_to_size on every row" %
+                                (("(1,1),(1,2),(2,1),(2,2),(3,2)", " (0..2 for (3,2))") if quick else ("(1,1),(1,2),(2,1),(2,2),(3,2),(2,3),(3,3),(1,4),(4,1)", "")),
+        "sampled": "%d seeded rounds: contig 7..40, 4..10 intervals (1..6 for the non-overlapping sets), every operation once per round" % (150 if quick else 2500)}
     # wall-clock allotment (seconds) of each section, counted from the section's own start, so that a slow section
     # (slow machine, or a fault that makes every call raise) cannot starve the later ones.  Typical use is about
     # half of it (quick ~35 s, thorough ~6 min); the sum is the worst case.
     if quick:
-        allot = {"clip": 2, "extend": 2, "geometry": 4, "merge": 6, "pairs": 6, "global_intersect": 2, "coverage": 11, "sort": 9,
+        allot = {"clip": 2, "extend": 2, "geometry": 4, "merge": 6, "pairs": 8, "global_intersect": 2, "coverage": 11, "sort": 9,
                  "unique_intersect": 9, "similarity": 12, "sampled": 4}
     else:
         allot = {"clip": 5, "extend": 8, "geometry": 25, "merge": 15, "pairs": 30, "global_intersect": 25, "coverage": 55, "sort": 105,
